@@ -12,7 +12,9 @@ package main
 //     bucket => the whole request must return an error and every bucket named in it must have exactly
 //     the rows it had before - immediately, after a later unrelated successful write to another bucket
 //     (which flushes whatever was left queued) and after a restart;
-//   * names match (any order, any numeric types) => the request is stored: every bucket holds its
+//   * names match (any order, any numeric types) => the request is stored (a request whose columns are
+//     in another order than the bucket's may instead be rejected as a whole: the statement demands
+//     storing only for "match by name but differ in numeric type"): every bucket holds its
 //     previous rows plus the new rows, each cell equal to the Go conversion of the input cell of the
 //     column WITH THE SAME NAME to the bucket's type. Where Go leaves the conversion implementation
 //     defined (float -> integer with the truncated value out of range, NaN, Inf) the cell is not
@@ -623,7 +625,7 @@ func c14run(c *runner.Ctx) (res runner.Result) {
 func c14scenario(c *runner.Ctx, in *ms.Inst, p *c14plan, scn int, res *runner.Result, cells, amb *int64, flushN *int) (tracked []c14tracked, sig string) {
 	r := c.R(fmt.Sprintf("values%d", scn))
 	desc := c14describe(p)
-	if c.Case == 0 || (c.Case == 1 && scn >= 3) {
+	if c.Case == 0 && (scn < 2 || scn == 4 || scn >= 8) {
 		if res.Sample == nil {
 			res.Sample = []interface{}{}
 		}
@@ -788,7 +790,14 @@ func c14scenario(c *runner.Ctx, in *ms.Inst, p *c14plan, scn int, res *runner.Re
 			}
 		}
 
-		if expectReject || (err != nil && undefinedAny) {
+		anyReordered := false
+		for _, b := range p.Buckets {
+			anyReordered = anyReordered || b.Reordered
+		}
+		if err != nil && !expectReject && anyReordered {
+			res.Count("reordered_rejected", 1)
+		}
+		if expectReject || (err != nil && (undefinedAny || anyReordered)) {
 			// the request must have been rejected as a whole
 			if err == nil {
 				fail("a request with a bucket whose columns do not match by name returned no error", map[string]interface{}{"request_rows": inputs, "attempt": a})
